@@ -5,7 +5,7 @@ import re
 
 PROP = "C18"
 FAMILY = "stats"
-PROPS = ["C18"]
+PROPS = ["C18", "C01Ident"]      # C01Ident: what the identifier pass delivers of a method (annotations, modifiers, returns-null)
 GEN_GROUPS = ["Stats"]
 
 MODS = ["public", "private", "protected", "static", "final", "abstract", "synchronized"]
@@ -65,6 +65,125 @@ def rand_model(rng):
     return clzs
 
 
+# ---- source trees: the evaluation of what `coca analysis` extracts ------------------------------------
+
+RET_BODIES = {
+    # (body lines, returns the null literal on some path)
+    "null_last": (["return null;"], True),
+    "null_first": (["if (k > 0) {", "    return null;", "}", "return make(k);"], True),
+    "null_middle": (["if (k > 2) {", "    return make(k);", "} else if (k > 1) {", "    return null;", "}", "return make(0);"], True),
+    "null_in_loop": (["for (int i = 0; i < k; i++) {", "    if (i == 3) return null;", "}", "return make(k);"], True),
+    "plain": (["return make(k);"], False),
+    "nullish_name": (["Object nullable = make(k);", "return nullable;"], False),
+    "nullish_call": (["return nullSafe(k);"], False),
+    "null_text": (["return \"null\";"], False),
+    "null_compared": (["Object o = make(k);", "if (o == null) {", "    o = make(1);", "}", "return o;"], False),
+    "null_assigned": (["Object o = null;", "o = make(k);", "return o;"], False),
+}
+VOID_BODIES = [[], ["return;"], ["if (k > 0) {", "    return;", "}", "make(k);"], ["Object o = null;", "make(k);"]]
+SRC_ANNOS = ["Nullable", "CheckForNull", "Override", "Deprecated", "NonNull", "SuppressWarnings(\"unchecked\")", "Nullable()", "NotNull"]
+
+
+def anno_name(a):
+    return a.split("(")[0]
+
+
+def src_method(rng, name, in_interface, abstract_ok):
+    """one method: its source lines and what the source says about it"""
+    ret = rng.choice(["String", "Object", "Repo", "void", "Object", "java.util.List<String>"])
+    annos = []
+    r = rng.random()
+    if r < 0.22:
+        annos = [rng.choice(["Nullable", "CheckForNull"])]
+    elif r < 0.32:
+        annos = [rng.choice(SRC_ANNOS)]
+    elif r < 0.42:
+        annos = rng.sample(SRC_ANNOS, 2)
+    if ret == "void":
+        annos = [a for a in annos if anno_name(a) not in ("Nullable", "CheckForNull", "javax.annotation.Nullable")]
+    if in_interface:
+        kind = rng.choice(["abstract", "abstract", "default", "static"])
+        mods = {"abstract": rng.choice([[], ["public"], ["public", "abstract"], ["abstract"]]), "default": rng.choice([["default"], ["public", "default"], ["default", "public"]]),
+                "static": rng.choice([["static"], ["public", "static"], ["static", "public"]])}[kind]
+        has_body = kind != "abstract"
+    else:
+        abstract = abstract_ok and rng.random() < 0.2
+        if abstract:
+            mods = rng.choice([["abstract"], ["public", "abstract"], ["abstract", "protected"], ["protected", "abstract"]])
+        else:
+            mods = rng.sample(["static", "final", "synchronized"], rng.choice([0, 0, 1, 1, 2, 3]))
+            if rng.random() < 0.8:
+                mods.insert(rng.randrange(len(mods) + 1), rng.choice(["public", "private", "protected"]))
+        has_body = not abstract
+    # the annotations stand before the modifiers (the usual place), or between / behind them
+    words = list(mods)
+    place = rng.random()
+    for a in annos:
+        at = 0 if place < 0.7 else rng.randrange(len(words) + 1)
+        words.insert(at, "@" + a)
+    if place < 0.7:
+        words = ["@" + a for a in annos] + list(mods)
+    returns_null = False
+    lines = []
+    own_line = annos and place < 0.7 and rng.random() < 0.5
+    head_words = words
+    if own_line:
+        lines += ["    @" + a for a in annos]
+        head_words = list(mods)
+    head = "    " + " ".join(head_words + [ret, name]) + "(int k)"
+    if not has_body:
+        lines.append(head + ";")
+    else:
+        if ret == "void":
+            body = rng.choice(VOID_BODIES)
+        else:
+            bk = rng.choice(sorted(RET_BODIES))
+            body, returns_null = RET_BODIES[bk]
+        lines.append(head + " {")
+        lines += ["        " + b for b in body]
+        lines.append("    }")
+    truth = {"Name": name, "ReturnType": ret, "Modifiers": list(mods), "Annotations": [{"Name": anno_name(a)} for a in annos], "IsReturnNull": returns_null}
+    return lines, truth
+
+
+def rand_source_project(rng):
+    files, truth = {}, []
+    used = set()
+    layout = rng.choice(["src/main/java/", "", "core/src/main/java/"])
+    for i in range(rng.choice([1, 2, 3, 4])):
+        pk = rng.choice(["com.shop", "com.shop.order", "p"])
+        interface = rng.random() < 0.2
+        cn = rng.choice(["OrderRepo", "Finder", "Gateway"] if interface else
+                        ["A", "StringUtil", "UserService", "OrderService", "MyUtils", "Utility", "Repo", "Futile", "OrderServiceUtils", "UtilServiceLocator", "Cart"])
+        if cn in used:
+            cn += str(i)
+        used.add(cn)
+        abstract_cls = (not interface) and rng.random() < 0.2
+        lines = ["package %s;" % pk, "", "import javax.annotation.*;", ""]
+        lines.append(("public interface %s {" % cn) if interface else ("public %sclass %s {" % ("abstract " if abstract_cls else "", cn)))
+        if not interface and rng.random() < 0.5:
+            lines += ["    private Object cache = null;", ""]
+        fns = []
+        names = []
+        for j in range(rng.choice([0, 1, 2, 3, 4, 6])):
+            name = rng.choice(NAMES[:26])
+            if name in names and rng.random() < 0.7:
+                name += str(j)
+            names.append(name)
+            ml, t = src_method(rng, name, interface, abstract_cls)
+            lines += ml + [""]
+            fns.append(t)
+        if not interface:
+            lines += ["    static Object make(int k) {", "        return new Object();", "    }", "",
+                      "    static Object nullSafe(int k) {", "        return make(k);", "    }"]
+            fns += [{"Name": "make", "ReturnType": "Object", "Modifiers": ["static"], "Annotations": [], "IsReturnNull": False},
+                    {"Name": "nullSafe", "ReturnType": "Object", "Modifiers": ["static"], "Annotations": [], "IsReturnNull": False}]
+        lines.append("}")
+        files["%s%s/%s.java" % (layout, pk.replace(".", "/"), cn)] = "\n".join(lines) + "\n"
+        truth.append({"NodeName": cn, "Package": pk, "Type": "Interface" if interface else "Class", "Functions": fns})
+    return files, truth
+
+
 def gen(rng, tier):
     nsh, per = (16, 100) if tier == "quick" else (32, 1500)
     shards = []
@@ -93,6 +212,16 @@ def gen(rng, tier):
                 # the listing as printed by the real `coca count`, three fresh processes (its order must be reproducible)
                 c["cliRuns"] = 3
                 c["top"] = 0
+            sh.append(c)
+        shards.append(sh)
+    # source trees through the identifier pass, the full pass and the analyser (a tenth of them through `coca analysis` + `coca evaluate`)
+    for s in range(4 if tier == "quick" else 16):
+        sh = []
+        for i in range(60 if tier == "quick" else 300):
+            files, truth = rand_source_project(rng)
+            c = {"op": "evaluatesrc", "files": files, "clzs": truth, "identifiers": truth}
+            if rng.random() < 0.1:
+                c["cli"] = True
             sh.append(c)
         shards.append(sh)
     return shards
@@ -174,7 +303,8 @@ def oracle(case, out, raw):
             for r in runs[:1]:
                 if sorted((k, int(v)) for v, k in r) != sorted(exp.items()):
                     ds.append(("refcount-cli-wrong", "`coca count` printed %s, expected counts %s" % (r[:5], sorted(exp.items())[:5])))
-    elif case["op"] == "evaluate":
+    elif case["op"] in ("evaluate", "evaluatesrc"):
+        # (evaluatesrc: "identifiers" / "clzs" are what the source of the case says)
         ids = case["identifiers"]
         methods = [(c, f) for c in ids for f in c.get("Functions") or []]
         exp = {"ClassCount": len(ids), "MethodCount": len(methods),
@@ -207,10 +337,15 @@ def nontrivial(case, mo):
 
 RULE = ("random code models (1-4 classes incl. *Util*/*Service* names and names that are both, 0-5 methods from a pool of camel-case shapes with acronyms/digits/underscores, "
         "modifier subsets, Nullable/CheckForNull/IsReturnNull, calls to declared/undeclared/creation/empty-NodeName callees) x {count, evaluate, concept}; "
+        "plus SOURCE trees (1-4 classes / interfaces, methods with modifiers in any order, @Nullable / @CheckForNull / other annotations before, between or behind the modifiers, "
+        "bodies returning null on the last / first / a middle path / in a loop, or only mentioning null-ish names and texts) through the real identifier pass, full pass and analyser "
+        "(a tenth of them through `coca analysis` + `coca evaluate`), judged against what the source says; "
         "a fifth of the evaluate / concept cases go through the real `coca evaluate` (coca_reporter/evaluate.json) / `coca concept` (printed table); half of the count cases (a quarter in the thorough tier) also run the REAL `coca count -d deps.json` three times in fresh processes; plus ALL 5040 permutations of the 7 modifiers (and the same without static) through evaluate once per run; non-trivial = non-empty report")
 ASSUMPTIONS = ["method names are ASCII (strcase indexes bytes); the oracle's word splitter is an independent reading of strcase.ToDelimited",
                "floating-point fields of the summary (standard deviations) are not compared",
-               "IsReturnNull / Modifiers as delivered by the identifier pass are inputs here; their extraction from source is covered by the Java front-end checks"]
+               "source trees (evaluatesrc): one top-level class or interface per file, no constructors and no nested types (whether those count as classes / methods is not stated); "
+               "a method returns the null literal when a `return null;` statement stands in its body (conditional expressions with a null branch and calls with a null argument in a return are not generated); "
+               "annotations written with their simple name"]
 TRUSTED = ["yourbasic/radix (bytewise lexicographic sort)", "iancoleman/strcase (modelled for ASCII)", "gonum stat (not compared)"]
 WITNESSES = {}
 
